@@ -21,7 +21,7 @@ RULE = ("(a) header/frame codec: every 12-bit origin and destination, ids incl. 
         "of the reference frames and a True result requires that the receiver accepted all of "
         "them. Non-trivial: bytes were compared; distinct = distinct (part, length, type, "
         "field class).")
-RULE += (" Later rounds added: traffic_direct writes, one-character string types, re-used and re-addressed headers, loop-back frames, kept bytearray messages re-sent with frames received in between, outages at a chosen fragment, kept buffers edited in place before being sent again, frames forwarded to a child after a completed or an abandoned fragment train, caller-set reserved bytes, the radio's read-only accessors used between messages, message types 128..255 on air.")
+RULE += (" Later rounds added: traffic_direct writes, one-character string types, re-used and re-addressed headers, loop-back frames, kept bytearray messages re-sent with frames received in between, outages at a chosen fragment, kept buffers edited in place before being sent again, frames forwarded to a child after a completed or an abandoned fragment train, caller-set reserved bytes, the radio's read-only accessors used between messages, message types 128..255 on air, the node re-addressed between two messages (a header object kept from before used again), a queue object of the application's own installed.")
 REQUIRED = {"pack_bytes": 10000, "unpack_roundtrip": 10000, "short_buffer_refused": 50,
             "onair_frames_vs_reference": 200, "tmrh_reassembly": 200, "caller_header_type": 200,
             "caller_header_type_routed": 10, "session_frames_vs_reference": 1000,
@@ -66,6 +66,7 @@ def gen_sessions(ctx):
     fragment (so that it is rescued by the first, second or third software retry, or lost)"""
     rng = ctx.sub_rng("c11s")
     rng2 = ctx.sub_rng("c11s2")  # later additions draw from their own stream
+    rng3 = ctx.sub_rng("c11s3")
     for i in range(900 if ctx.tier == "quick" else 40000):
         msgs = []
         for k in range(rng.randrange(2, 5)):
@@ -98,6 +99,16 @@ def gen_sessions(ctx):
             if how in ("send", "write") and rng2.random() < 0.35:
                 # a frame for the child 0o11 arrives afterwards and is forwarded (length, type)
                 mm["forward_after"] = [rng2.choice([0, 1, 10, 24]), rng2.choice([5, 64, 33])]
+            r3 = rng3.random()
+            if msgs and r3 < 0.25:
+                # the node is given another address before this message; a header object kept from the
+                # previous message (sent under the old address) is often the one used again
+                mm["readdress"] = True
+                if how in ("send", "write") and msgs[-1]["how"] in ("send", "write") and rng3.random() < 0.6:
+                    mm["reuse"] = True
+            elif r3 < 0.4:
+                # the application installs a queue object of its own (the attribute is public)
+                mm["own_queue"] = rng3.choice(["plain", "frag"])
             msgs.append(mm)
         outage = None
         uni = [j for j, mm in enumerate(msgs) if mm["how"] in ("send", "write")]
@@ -170,6 +181,17 @@ def run_session(ctx, case):
                  obj.crc, obj.get_auto_retries(), obj.last_tx_arc, obj.address(pp), obj.listen, obj.power,
                  obj.is_lna_enabled)
                 ctx.count("sessions_reading_radio_settings_between_messages")
+            if mm.get("readdress"):
+                me = 0o2 if me == 0o1 else 0o1
+                obj.node_address = me
+                ctx.clause("sent_after_readdressing")
+            # destinations are the node's direct neighbours (the stub acknowledges packets, it does
+            # not answer with NETWORK_ACK frames): parent 0 and the children 0o1x / 0o2x of its address
+            to = {0: 0, 0o11: 0o10 + me, 0o21: 0o20 + me}.get(to, to)
+            child1 = 0o10 + me
+            if mm.get("own_queue"):
+                obj.queue = (m["structs"].FrameQueue() if mm["own_queue"] == "plain" else m["structs"].FrameQueueFrag())
+                ctx.clause("sent_with_own_queue_object")
             if mm.get("rx_waiting"):
                 waiting = net_ref.pack_header(0, me, 950 + j, 5, 0) + b"waiting-%d" % j
                 radio.inject_rx(1, waiting)
@@ -190,7 +212,7 @@ def run_session(ctx, case):
                     if j % 3 == 0:
                         hdr.message_type = chr(t) if 32 < t < 127 else t  # a one-character string assigned later
                     fid = hdr.frame_id
-                    ret = obj.write(Frame(hdr, msg), [0, 0o11][(n + j) % 2])
+                    ret = obj.write(Frame(hdr, msg), [0, child1][(n + j) % 2])
                     t_str = hdr.message_type
                 elif how == "loopback":
                     hdr = Hdr(me, t)
@@ -247,7 +269,7 @@ def run_session(ctx, case):
                 if mm.get("forward_after"):
                     # a frame for the child arrives: what goes on air is that frame, unchanged, once
                     fl, ft = mm["forward_after"]
-                    fwd = net_ref.pack_header(0, 0o11, 700 + j, ft, 0) + bytes((fl + i * 5 + j) & 0xFF for i in range(fl))
+                    fwd = net_ref.pack_header(0, child1, 700 + j, ft, 0) + bytes((fl + i * 5 + j) & 0xFF for i in range(fl))
                     air_in, ack_in = len(rig.air.log), len(ph.acked)
                     st["cur"] = None
                     radio.inject_rx(1, fwd)
@@ -281,8 +303,10 @@ def run_session(ctx, case):
                                                                    " and a received frame" if mm.get("incoming_after") else ""), case)
                     return
             prev = hdr if hdr is not None else None
-            what = "message %d (%s, %d bytes, type %d%s%s)" % (
-                j, how, n, t, ", header object re-used" if mm["reuse"] else "",
+            what = "message %d (%s, %d bytes, type %d%s%s%s%s)" % (
+                j, how, n, t, ", node re-addressed to %s before" % oct(me) if mm.get("readdress") else "",
+                ", own %s queue object installed" % mm["own_queue"] if mm.get("own_queue") else "",
+                ", header object re-used" if mm["reuse"] else "",
                 ", outage %r" % out if out and out["msg"] == j else "")
             pk = [p for p in rig.air.log[air0:] if p.kind == "data"]
             distinct = _collapse([bytes(p.payload) for p in pk])
